@@ -235,6 +235,107 @@ def assigned(f, diag):
     return out
 
 
+ADAPTIVE = [fam for fam in FAMILIES if fam[2] in ('veitch', 'ss', 'at', 'adaptive_eigenvector', 'adaptive_solid_angle')]
+
+
+def key_attr(k):
+    """the attribute that `setattr(self, k, ..)` ends up writing"""
+    return write_attr(ast.Attribute(value=ast.Name(id='self', ctx=ast.Load()), attr=k, ctx=ast.Store()))
+
+
+def reset_attrs(f, diag):
+    """setup_adaptation: the keys of `self._initial_proposal_params` (= the attributes a reset writes), each with whether the stored
+    initial value is a copy of its own (a `.copy()` / `numpy.copy(..)` / a literal / a local) rather than the live attribute object"""
+    out = []
+
+    def is_ipp(e):
+        return is_self_attr(e) and e.attr == '_initial_proposal_params'
+
+    def fresh(v):
+        if isinstance(v, ast.Constant):
+            return True
+        if isinstance(v, ast.Call) and isinstance(v.func, ast.Attribute) and v.func.attr == 'copy':
+            return True
+        if isinstance(v, ast.IfExp):
+            return fresh(v.body) and fresh(v.orelse)
+        if isinstance(v, ast.Name):
+            return True
+        return False           # e.g. self._cov itself: the stored initial value is the live object
+
+    def items(d, conditional):
+        if not isinstance(d, ast.Dict):
+            raise Untranslatable('_initial_proposal_params is not built from dictionary literals')
+        for k, v in zip(d.keys, d.values):
+            if not (isinstance(k, ast.Constant) and isinstance(k.value, str)):
+                raise Untranslatable('a key of _initial_proposal_params is not a string literal')
+            a = key_attr(k.value)
+            out.append((('?conditional ' + a) if conditional else a, 'copy' if fresh(v) else 'live'))
+
+    def go(stmts, conditional):
+        for st in stmts:
+            if isinstance(st, ast.If):
+                go(st.body, True)
+                go(st.orelse, True)
+            elif isinstance(st, ast.Assign) and len(st.targets) == 1 and is_ipp(st.targets[0]):
+                items(st.value, conditional)
+            elif (isinstance(st, ast.Expr) and isinstance(st.value, ast.Call) and isinstance(st.value.func, ast.Attribute)
+                  and st.value.func.attr == 'update' and is_ipp(st.value.func.value) and len(st.value.args) == 1):
+                items(st.value.args[0], conditional)
+            elif any(is_ipp(n) for n in ast.walk(st)):
+                raise Untranslatable('_initial_proposal_params is used in: %s' % ast.unparse(st)[:60])
+    go(flatten(strip_doc(f.body), diag), False)
+    return out
+
+
+def reset_copies():
+    """BaseAdaptiveSupport._reset_adaptation: does every attribute get a deep copy of the stored initial value?"""
+    f = find('epsie/proposals/base.py', 'BaseAdaptiveSupport', '_reset_adaptation')
+    loops = [n for n in ast.walk(f) if isinstance(n, ast.For)]
+    if len(loops) != 1:
+        raise Untranslatable('_reset_adaptation does not have exactly one loop')
+    lp = loops[0]
+    if not (isinstance(lp.iter, ast.Call) and isinstance(lp.iter.func, ast.Attribute) and lp.iter.func.attr == 'items'
+            and is_self_attr(lp.iter.func.value) and lp.iter.func.value.attr == '_initial_proposal_params'
+            and isinstance(lp.target, ast.Tuple) and len(lp.target.elts) == 2 and all(isinstance(e, ast.Name) for e in lp.target.elts)):
+        raise Untranslatable('the loop of _reset_adaptation is not over self._initial_proposal_params.items()')
+    a, v = lp.target.elts[0].id, lp.target.elts[1].id
+    b = strip_doc(lp.body)
+    if not (len(b) == 1 and isinstance(b[0], ast.Expr) and isinstance(b[0].value, ast.Call) and isinstance(b[0].value.func, ast.Name)
+            and b[0].value.func.id == 'setattr' and len(b[0].value.args) == 3 and isinstance(b[0].value.args[0], ast.Name)
+            and b[0].value.args[0].id == 'self' and isinstance(b[0].value.args[1], ast.Name) and b[0].value.args[1].id == a):
+        raise Untranslatable('the loop body of _reset_adaptation is not setattr(self, attr, ..)')
+    val = b[0].value.args[2]
+    deep = (isinstance(val, ast.Call) and ast.unparse(val.func) in ('copy.deepcopy', 'deepcopy') and len(val.args) == 1
+            and isinstance(val.args[0], ast.Name) and val.args[0].id == v)
+    # nothing after the loop may write the attributes again, other than recomputing what is derived from them
+    return deep
+
+
+def is_deepcopy_of(e, inner):
+    return (isinstance(e, ast.Call) and ast.unparse(e.func) in ('copy.deepcopy', 'deepcopy') and len(e.args) == 1 and not e.keywords
+            and ast.unparse(e.args[0]) == inner)
+
+
+def chain_state_copies():
+    """Chain.state: is the proposals' state stored as a deep copy?  Chain.set_state: is it handed to the proposals as a deep copy?"""
+    f = find('epsie/chain/chain.py', 'Chain', 'state')
+    hits = [n.value for n in ast.walk(f) if isinstance(n, ast.Assign) and len(n.targets) == 1 and isinstance(n.targets[0], ast.Subscript)
+            and isinstance(n.targets[0].slice, ast.Constant) and n.targets[0].slice.value == 'proposal_dist']
+    for d in ast.walk(f):               # ... or as an entry of a dictionary literal
+        if isinstance(d, ast.Dict):
+            hits += [v for k, v in zip(d.keys, d.values) if isinstance(k, ast.Constant) and k.value == 'proposal_dist']
+    if len(hits) != 1:
+        raise Untranslatable("Chain.state does not store the key 'proposal_dist' exactly once")
+    out = is_deepcopy_of(hits[0], 'self.proposal_dist.state')
+    g = find('epsie/chain/chain.py', 'Chain', 'set_state')
+    pname = g.args.args[1].arg
+    calls = [n for n in ast.walk(g) if isinstance(n, ast.Call) and ast.unparse(n.func) == 'self.proposal_dist.set_state']
+    if len(calls) != 1 or len(calls[0].args) != 1:
+        raise Untranslatable('Chain.set_state does not call self.proposal_dist.set_state(..) exactly once')
+    into = is_deepcopy_of(calls[0].args[0], "%s['proposal_dist']" % pname)
+    return out, into
+
+
 def find(path, cls, fn):
     tree = ast.parse(open(os.path.join(REPO, path)).read())
     for node in tree.body:
@@ -268,6 +369,27 @@ def generate():
                     lines.append('(* src_%s_%s: NOT TRANSLATED: %s *)' % (what, name, str(e).replace('*)', '* )')))
                     notes.append('py2coq_state: src_%s_%s not translated: %s' % (what, name, e))
             lines.append('')
+    for path, cls, fam, branches in ADAPTIVE:
+        for diag, suffix in (((True, '_diag'), (False, '_full')) if branches else (((True if fam == 'veitch' else None), ''),)):
+            name = fam + suffix
+            try:
+                items = reset_attrs(find(path, cls, 'setup_adaptation'), diag)
+                lines.append('Definition src_reset_%s : list (string * string) := %s.' % (name, clist(items)))
+            except (Untranslatable, SyntaxError, OSError, IndexError) as e:
+                lines.append('(* src_reset_%s: NOT TRANSLATED: %s *)' % (name, str(e).replace('*)', '* )')))
+                notes.append('py2coq_state: src_reset_%s not translated: %s' % (name, e))
+    try:
+        lines.append('\nDefinition src_reset_deepcopies : bool := %s.' % ('true' if reset_copies() else 'false'))
+    except (Untranslatable, SyntaxError, OSError, IndexError) as e:
+        lines.append('(* src_reset_deepcopies: NOT TRANSLATED: %s *)' % (str(e).replace('*)', '* )'),))
+        notes.append('py2coq_state: src_reset_deepcopies not translated: %s' % e)
+    try:
+        a, b = chain_state_copies()
+        lines.append('\nDefinition src_chain_state_deepcopies : bool := %s.' % ('true' if a else 'false'))
+        lines.append('\nDefinition src_chain_set_state_deepcopies : bool := %s.' % ('true' if b else 'false'))
+    except (Untranslatable, SyntaxError, OSError, IndexError) as e:
+        lines.append('(* src_chain_state_deepcopies: NOT TRANSLATED: %s *)' % (str(e).replace('*)', '* )'),))
+        notes.append('py2coq_state: src_chain_state_deepcopies not translated: %s' % e)
     return '\n'.join(lines) + '\n', notes
 
 
